@@ -456,7 +456,7 @@ def context_inheritance(prog, rep, rule="E3.ctx"):
     rep.rule(rule, "nested execution contexts inherit every field of the enclosing context except locals / error_context (and the regex captures inside scan arms), identically in both modes")
     n = 0
     per = {}
-    for f in sorted(prog.fns.values(), key=lambda x: x.id):
+    for f in sorted(prog.shape_fns(), key=lambda x: x.id):
         if f.body is None or not f.file.startswith(("src/execution/strict", "src/execution/lazy")):
             continue
         tr = None
